@@ -21,7 +21,7 @@ from typing import Any, Dict, List, Optional, Sequence, Set, Tuple
 
 from engine.srcmatch import U
 from engine.fold import Folder
-from engine.mathobj import NOTIMPL, Dispatcher, Obj, ang_input, mat_input, vec_input
+from engine.mathobj import NeedAssume, NOTIMPL, Dispatcher, Obj, ang_input, mat_input, vec_input
 from engine.model import resolve_method, AnalysisError, Program, base_names, dotted, mro, walk_no_nested
 from engine.pyx import PyxFile
 from rules.c04 import extract_forms
@@ -302,6 +302,14 @@ def run(ctx: Any, prog: Program) -> None:
                         else:
                             ctx.shape('C05.G1', False, mt, n, f'store to {U(t)} through {v.func.id}(): what the helper returns (`{U(rets_[0].value)[:60] if rets_ else "nothing"}`) is not one of the enumerated normalised forms - '
                                       'range not decided', func=qual, text=f'{U(t)} = {U(v)[:80]}')
+                            continue
+                    elif isinstance(v, ast.IfExp) and isinstance(v.test, ast.Compare) and len(v.test.ops) == 1 and is_360(v.test.comparators[0]) and isinstance(v.test.ops[0], (ast.Gt, ast.GtE)):
+                        # "take one turn off when the sum went past 360": with `>` the value 360.0 itself is stored; with `>=` the range is right
+                        # only if the operand is known to lie in [0, 720), which is not established here
+                        if isinstance(v.test.ops[0], ast.Gt):
+                            why = f'`{U(v)[:60]}` keeps a value of exactly 360.0 (the test is `> 360.0`): e.g. 180 + 180'
+                        else:
+                            ctx.shape('C05.G1', False, mt, n, f'store to {U(t)}: `{U(v)[:60]}` takes one turn off conditionally - in range only if the operand is in [0, 720), not decided', func=qual, text=f'{U(t)} = {U(v)[:80]}')
                             continue
                     else:
                         why = 'not a recognised normalised form'
@@ -611,27 +619,35 @@ def run(ctx: Any, prog: Program) -> None:
             for inplace in (False, True):
                 if lc == 'tuple' and inplace:
                     continue
-                L, R = mk(lc, 'L'), mk(rc, 'R')
-                l0, r0 = repr(L.data), repr(R.data)
-                try:
-                    res, tried = disp.binop(L, R, inplace)
-                except AnalysisError as exc:
-                    raise
-                label = f'{lc} {"@=" if inplace else "@"} {rc}'
-                if res is NOTIMPL:
-                    continue
-                anchor = _rm(mt, lc if lc != 'tuple' else rc, '__matmul__' if lc != 'tuple' else '__rmatmul__')
-                anode = anchor[1] if anchor else None
-                lmut = repr(L.data) != l0 or bool(L.mutations)
-                rmut = repr(R.data) != r0 or bool(R.mutations)
-                must_keep_left = (not inplace) or lc in FROZEN
-                if lc in FROZEN or not inplace:
-                    ctx.check('C05.G2', not lmut, mt, anode, f'{label}: the left operand ({lc}) is mutated in place ({L.mutations}) via {tried}',
-                              func='operator dispatch', text=label + ' left operand intact')
-                ctx.check('C05.G2', not rmut, mt, anode, f'{label}: the right operand ({rc}) is mutated ({R.mutations}) via {tried}',
-                          func='operator dispatch', text=label + ' right operand intact')
-                if inplace and lc in MUTABLE and isinstance(res, Obj) and res is not L:
-                    ctx.note(f'{label}: falls back to a new object (via {tried}); value semantics only')
+                # arms that test an angle component against zero (value-dependent fast paths) are run once per answer
+                todo_as: List[Dict[Any, bool]] = [{}]
+                while todo_as:
+                    assume = todo_as.pop()
+                    if len(assume) > 6:
+                        raise AnalysisError(f'{lc} @ {rc}: more than 6 value tests on angle components along one path')
+                    L, R = mk(lc, 'L'), mk(rc, 'R')
+                    l0, r0 = repr(L.data), repr(R.data)
+                    disp.assume, disp.used_trig = assume, False
+                    try:
+                        res, tried = disp.binop(L, R, inplace)
+                    except NeedAssume as na:
+                        todo_as += [{**assume, na.key: True}, {**assume, na.key: False}]
+                        continue
+                    label = f'{lc} {"@=" if inplace else "@"} {rc}' + ''.join(f' [{"L" if "L" in k[0] else "R"}.{k[1]} {"==" if z else "!="} 0]' for k, z in sorted(assume.items()))
+                    if res is NOTIMPL:
+                        continue
+                    anchor = _rm(mt, lc if lc != 'tuple' else rc, '__matmul__' if lc != 'tuple' else '__rmatmul__')
+                    anode = anchor[1] if anchor else None
+                    lmut = repr(L.data) != l0 or bool(L.mutations)
+                    rmut = repr(R.data) != r0 or bool(R.mutations)
+                    if lc in FROZEN or not inplace:
+                        ctx.check('C05.G2', not lmut, mt, anode, f'{label}: the left operand ({lc}) is mutated in place ({L.mutations}) via {tried}',
+                                  func='operator dispatch', text=label + ' left operand intact')
+                    ctx.check('C05.G2', not rmut, mt, anode, f'{label}: the right operand ({rc}) is mutated ({R.mutations}) via {tried}',
+                              func='operator dispatch', text=label + ' right operand intact')
+                    if inplace and lc in MUTABLE and isinstance(res, Obj) and res is not L:
+                        ctx.note(f'{label}: falls back to a new object (via {tried}); value semantics only')
+    disp.assume, disp.used_trig = {}, False
 
     # ---- G3 -----------------------------------------------------------------------------------------
     for cname in MUTABLE:
